@@ -459,6 +459,12 @@ pub fn split_bytes(r: &mut Rng, b: &[u8]) -> Vec<Vec<u8>> {
 /// The general session generator.  `focus` biases the call family,
 /// `via` = 0 API only, 1 parser only (where a spelling exists), 2 mixed.
 pub fn session(r: &mut Rng, id: String, focus: &str, nops: u32, via: u32, bytes: bool) -> Session {
+    session_opts(r, id, focus, nops, via, bytes, true)
+}
+
+/// `garbage = false`: only complete sequences, so the recogniser is in its
+/// ground state between ops.
+pub fn session_opts(r: &mut Rng, id: String, focus: &str, nops: u32, via: u32, bytes: bool, garbage_ok: bool) -> Session {
     let (mut cols, mut lines) = geometry(r);
     let (c0, l0) = (cols, lines);
     let mut ops = vec![];
@@ -491,7 +497,7 @@ pub fn session(r: &mut Rng, id: String, focus: &str, nops: u32, via: u32, bytes:
             1 => true,
             _ => r.chance(1, 2),
         };
-        if r.chance(1, 25) {
+        if garbage_ok && r.chance(1, 25) {
             let g = garbage(r);
             push_feed(r, &mut ops, &g, bytes);
             continue;
